@@ -204,7 +204,26 @@ def c16_index(case):
         if back != n:
             return bad("C16:roundtrip", "get_index_from_selfies(*%r) = %d != %d" % (got, back, n))
         return ok()
-    syms = case["symbols"]  # None = missing
+    syms = case["symbols"]  # None = missing (only at the end of the string)
+    if None in syms:
+        present = [x for x in syms if x is not None]
+        if any(x is None for x in syms[:len(present)]):
+            return ok("missing symbol in the middle cannot occur")
+        q = 0
+        for x in syms:
+            q = q * 16 + (DOC_INDEX.index(x) if x in DOC_INDEX else 0)
+        m = min(q + 4, 4300)
+        x = "[C]" * m + "[Ring%d]" % len(syms) + "".join(present)
+        out = sf.decoder(x)
+        mol = oread.read_smiles(out)
+        last = m - 1
+        tgt = max(0, last - (q + 1))
+        rb = sorted(k for k, b in mol.bonds.items() if b.kind == "ring")
+        want_rb = [] if tgt in (last, last - 1) else [(tgt, last)]
+        if rb != want_rb:
+            return bad("C16:decode", "decoder('[C]'*%d + %r) closes ring bonds %r; the documented code (missing symbols = digit 0) gives Q=%d, i.e. %r"
+                       % (m, "[Ring%d]" % len(syms) + "".join(present), rb, q, want_rb))
+        return ok()
     want = 0
     for s in syms:
         want = want * 16 + (DOC_INDEX.index(s) if s in DOC_INDEX else 0)
@@ -359,10 +378,11 @@ def c13_nop(case):
         x = case["selfies"]
         y = "".join(t for t in _tok(x) if t != "[nop]")
         a = bool(case.get("attribute"))
-        r1, r2 = _dec(x, attribute=a), _dec(y, attribute=a)
+        c = bool(case.get("compatible"))
+        r1, r2 = _dec(x, attribute=a, compatible=c), _dec(y, attribute=a, compatible=c)
         if r1 != r2:
-            return bad("C13:differs", "decoder(%r) -> %s but without [nop] decoder(%r) -> %s (attribute=%s, table %s)"
-                       % (x, str(r1)[:120], y, str(r2)[:120], a, _short(case.get("table"))))
+            return bad("C13:differs", "decoder(%r) -> %s but without [nop] decoder(%r) -> %s (attribute=%s, compatible=%s, table %s)"
+                       % (x, str(r1)[:120], y, str(r2)[:120], a, c, _short(case.get("table"))))
         return ok()
     finally:
         reset_table()
